@@ -254,10 +254,14 @@ class MinerWatcher:
             # we didn't mine the block
             return
 
-        self.network_thread.local_peer.chain_manager.set_coinstate(self.coinstate)
+        # First add the block to the coinstate (which also validates it), and only then hand the result over to the
+        # network layer and broadcast the block: the coinstate we serve to our peers must contain the block we just
+        # found. We add it to the coinstate the network layer has at this moment, because that may have received
+        # blocks from the network since we fetched ours.
+        chain_manager = self.network_thread.local_peer.chain_manager
+        self.coinstate = chain_manager.coinstate.add_block(block, int(time()))
+        chain_manager.set_coinstate(self.coinstate)
         self.network_thread.local_peer.network_manager.broadcast_block(block)
-
-        self.coinstate = self.coinstate.add_block(block, int(time()))
 
         self.network_thread.local_peer.disk_interface.save_block(block)
         self.network_thread.local_peer.disk_interface.flush_blocks()
